@@ -40,6 +40,15 @@ package schema
 //@   do probeTypeTag = tagof(arg0)
 //@   do probeTypeBox = boxof(arg0)
 //@   do probePtr = result.ptr
+//@ # ---------- C03/C10: a name is a column name first, a field name second ----------
+//@ # Result columns are routed to fields, and Select/Omit/map keys to columns, through this lookup: a column name that
+//@ # happens to be spelled like another field's Go name still means the column.
+//@ func (Schema).LookUpField
+//@   tags C03 C10
+//@   modifies nothing
+//@   ensures column-name-first: has(schema.FieldsByDBName, name) ==> result == schema.FieldsByDBName[name]
+//@   ensures then-field-name: !has(schema.FieldsByDBName, name) && has(schema.FieldsByName, name) ==> result == schema.FieldsByName[name]
+//@   ensures unknown-name: !has(schema.FieldsByDBName, name) && !has(schema.FieldsByName, name) ==> result == nil
 //@ site clause-hooks-probed-on-indirect-type
 //@   match invoke CreateClausesInterface.CreateClauses | invoke QueryClausesInterface.QueryClauses | invoke UpdateClausesInterface.UpdateClauses | invoke DeleteClausesInterface.DeleteClauses
 //@   in schema.ParseWithSpecialTableName
